@@ -42,7 +42,8 @@ def _orders(inp):
 
 
 def _explicit_ops(cr, mode_seed):
-    """the crystal's own operations supplied by the caller, the same group in another order (seed % 3):
+    """the crystal's own operations supplied by the caller, the same group in another order (seed % 4; 3: proper
+    operations first, improper ones after them):
     0: identity first, the rest shuffled; 1: identity first, rotation-major ("for each point operation, for each
     lattice point"); 2: a NON-identity operation first, the identity second (so that the zero translation is still the
     first of the pure translations, which is all the code relies on), the rest shuffled — this last form is outside
@@ -54,8 +55,12 @@ def _explicit_ops(cr, mode_seed):
     if not ok:
         return None
     idx = list(range(1, len(rots)))
-    mode = int(mode_seed) % 3
-    if mode == 1:
+    mode = int(mode_seed) % 4
+    if mode == 3:
+        # identity first, then all PROPER operations (shuffled), then all improper ones (shuffled independently)
+        idx = [int(i) for i in rs.permutation(idx)]
+        idx = [0] + [i for i in idx if np.linalg.det(rots[i]) > 0] + [i for i in idx if np.linalg.det(rots[i]) < 0]
+    elif mode == 1:
         idx.sort(key=lambda i: (rots[i].reshape(-1).tolist(), np.round(trans[i], 6).tolist()))
         idx = [0] + idx
     else:
@@ -925,6 +930,21 @@ def check_sg_perms(inp) -> list:
             out.append(f"operation {k} (r={np.asarray(r).tolist()}, t={np.round(t, 6).tolist()}): permutation "
                        f"{perms[k].tolist()} but atoms move as {ref.tolist()}")
             break
+    # Cartesian rotation matrices of the coset representatives: r_c = L r L^-1 (L = lattice vectors as columns), and
+    # the order-2 representation kron(r_c, r_c)
+    from symfc.spg_reps import SpgRepsO1, SpgRepsO2
+    ops_d = {"rotations": rots, "translations": trans}
+    LT = cr.lattice.T
+    for cls_, power in ((SpgRepsO1, 1), (SpgRepsO2, 2)):
+        sr_ = cls_(cr.atoms(), spacegroup_operations=ops_d)
+        for r_int, rep in zip(sr_._unique_rotations, sr_.r_reps):
+            r_c = LT @ r_int @ np.linalg.inv(LT)
+            want = r_c if power == 1 else np.kron(r_c, r_c)
+            got = rep.toarray() if hasattr(rep, "toarray") else np.asarray(rep)
+            if got.shape != want.shape or float(np.abs(got - want).max()) > 1e-8:
+                out.append(f"{cls_.__name__}: rotation matrix of {np.asarray(r_int).tolist()} differs from the Cartesian "
+                           f"rotation L r L^-1" + ("" if power == 1 else " (Kronecker square)"))
+                break
     sr = SpgRepsBase(cr.atoms(), spacegroup_operations={"rotations": rots, "translations": trans})
     tp = sr.translation_permutations
     n_lp = tp.shape[0]
@@ -1585,7 +1605,12 @@ def check_basis_o1(inp) -> list:
     cr = _cr(inp)
     N = len(cr.numbers)
     out = []
-    dim, W = ph.reference_dimension(cr, 1)
+    cr_sym = cr
+    if inp.get("marks") is not None:
+        # the caller supplies the operations of a two-sublattice description (a subgroup, possibly with fewer pure
+        # translations than spglib finds from the species): the admissible space is the one of that subgroup
+        cr_sym = Crystal(cr.name, cr.lattice, cr.positions, cr.numbers + 50 * np.array(inp["marks"]), cr.n_lp_expected, {})
+    dim, W = ph.reference_dimension(cr_sym, 1)
     # the order-1 sum-rule complement, uncompressed, is the model's matrix (O1.sumRuleO1): Tᵀ T = (1/N) 1_{NxN} ⊗ I_3
     from scipy.sparse import identity as _sid
     from symfc.utils.matrix_tools_O1 import _compressed_complement_projector_sum_rules
@@ -1594,6 +1619,9 @@ def check_basis_o1(inp) -> list:
     if float(np.abs(pc - np.kron(np.ones((N, N)) / N, np.eye(3))).max()) > 1e-12:
         out.append("order 1: sum-rule complement is not (1/N) 1 (x) I_3")
     ops = _explicit_ops(cr, inp["explicit_ops"]) if inp.get("explicit_ops") is not None else None
+    if inp.get("marks") is not None:
+        r_, t_ = ph.spg_ops(cr_sym)
+        ops = {"rotations": r_, "translations": t_}
     try:
         bs = FCBasisSetO1(cr.atoms(), spacegroup_operations=ops).run()
     except ValueError as e:
@@ -1618,9 +1646,9 @@ def check_basis_o1(inp) -> list:
     sc = max(float(np.abs(T).max()), 1e-300)
     if float(np.abs(T.sum(axis=0)).max()) / sc > 1e-7:
         out.append("order 1: sum over atoms is not zero")
-    rots, trans = ph.spg_ops(cr)
+    rots, trans = ph.spg_ops(cr_sym)
     for r, t in zip(rots, trans):
-        p = ph.atom_perm_of_op(cr, r, t)
+        p = ph.atom_perm_of_op(cr_sym, r, t)
         if p is None:
             break
         d = float(np.abs(ph.apply_op(T, 1, p, ph.cart_rotation(cr, r)) - T).max()) / sc
